@@ -328,7 +328,7 @@ static inline drv::Result decode_matching(Config &g, const std::vector<uint8_t> 
 	if (g.entry == E_MICROLZMA) r = lzma_microlzma_decoder(&s, bytes.size(), plain_len, true, g.lz.dict_size);
 	else r = init_decoder(&s, g);
 	if (r != LZMA_OK) { R.ret = r; lzma_end(&s); return R; }
-	R = drv::run(&s, bytes.data(), bytes.size(), sch, o);
+	{ drv::Opts om = o; om.input_beyond_declared_size = g.entry == E_MICROLZMA; R = drv::run(&s, bytes.data(), bytes.size(), sch, om); }
 	lzma_end(&s); return R;
 }
 
